@@ -67,10 +67,14 @@ class C08(Check):
             libs = (rng.choice(libs),)
         if stratum == 'S-big':
             libs = rng.choice([libs, ('lin',), ('leak', 'lin')])
+        # function-level probes of models with ring-buffer delays on some edges (fresh buffers: a delayed edge delivers nothing
+        # yet), multi-operator nodes included: the extrinsic input still arrives where it is addressed
+        with_delays = stratum == 'S-probe' and rng.random() < 0.3
         spec = models.gen_net(rng, n_nodes=rng.randint(2 if stratum == 'S-cols' else 1, 5) if stratum != 'S-big' else rng.randint(9, 15), libs=libs,
                               hier=depth >= 1, max_edges=4,
+                              delays=(lambda r: {'delay': r.choice([0.25, 0.4, 0.7])} if r.random() < 0.6 else {}) if with_delays else None,
                               # multi-operator nodes: the operator that receives the input is read by a second operator
-                              readouts=(0.4, 0.0, 0.5) if rng.random() < 0.25 else None)
+                              readouts=(0.4, 0.0, 0.5) if rng.random() < (0.7 if with_delays else 0.25) else None)
         if stratum == 'S-big' and rng.random() < 0.3:
             # more than twenty units of one kind, every unit fed by its two predecessors: a convergent projection sparse enough
             # (edges / (targets x sources) <= matrix_sparseness) for the compiler's index path
@@ -155,7 +159,7 @@ class C08(Check):
                'm': m_sub if stratum in ('S-jax', 'S-fortran') else 1,
                'probe_times': [], 'adaptive_probe': False}
         if stratum == 'S-probe':
-            cfg['adaptive_probe'] = rng.random() < 0.6
+            cfg['adaptive_probe'] = rng.random() < 0.6 and not with_delays
             T = N * dt
             if cfg['adaptive_probe'] and len(inputs) > 1 and rng.random() < 0.5:
                 # inputs of different lengths through get_run_func: each is laid out on its own time window (length * dt)
